@@ -179,6 +179,9 @@ func ruleR07a(c *Ctx) {
 			},
 			RunDeferred: func(pc *PathCtx, s uint64, d *ssa.Defer) uint64 { return release(pc, s, d.Pos()) },
 			Step: func(pc *PathCtx, s uint64, ins ssa.Instruction) uint64 {
+				if w := m.waitedDone(c, ins); w != nil && m.handoffChan(c, w) != nil {
+					return s | rvWAITED
+				}
 				switch x := ins.(type) {
 				case *ssa.Call:
 					if k, _, ok := m.takeKind(c, x); ok && k == "referenceIks" {
@@ -761,6 +764,9 @@ func ruleR11a(c *Ctx) {
 			},
 			RunDeferred: func(pc *PathCtx, s uint64, d *ssa.Defer) uint64 { return release(pc, s, d.Pos()) },
 			Step: func(pc *PathCtx, s uint64, ins ssa.Instruction) uint64 {
+				if w := m.waitedDone(c, ins); w != nil && m.handoffChan(c, w) != nil {
+					return s | rvWAITED
+				}
 				switch x := ins.(type) {
 				case *ssa.Call:
 					if k, _, ok := m.takeKind(c, x); ok && k == "referenceTxReference" {
